@@ -9,7 +9,7 @@ SPEC = {
     "lean_modules": ["SemaModel.C18.Props"],
     "lean_dirs": ["SemaModel/C18"],
     "harness": "c18",
-    "harness_args": {"quick": ["-n", 900], "thorough": ["-n", 9000, "-deepmp", 6000000]},
+    "harness_args": {"quick": ["-n", 1500], "thorough": ["-n", 9000, "-deepmp", 6000000]},
     "timeout": {"quick": 900, "thorough": 3000},
     "level": "proof",
     "level_note": "PARTIAL: proof covers the decision logic after decoding (every Validate(), CheckCompatibleMap, ValidateSchema, "
